@@ -243,6 +243,55 @@ func runC05HTTP(o *hx.Out, r *hx.Rand, thorough bool) {
 				"a SendMsg in flight when the call completed early never returned")
 		}
 	}
+	// (c1d) other goroutines poll Trailer() (legal at any time: nil until the call is over) while the call runs to
+	// completion: it completes, and later operations return
+	{
+		ch, _, stop := httpPair(echoSvc())
+		rounds, okAll, failedAt := 40, true, -1
+		for rd := 0; rd < rounds && okAll; rd++ {
+			ctx, cancel := context.WithTimeout(context.Background(), 4*time.Second)
+			cs, err := ch.NewStream(ctx, hx.StreamDescOf("BD"), "/verif.Svc/BD")
+			if err != nil {
+				cancel()
+				okAll, failedAt = false, rd
+				break
+			}
+			quit := make(chan struct{})
+			for g := 0; g < 4; g++ {
+				go func() {
+					for {
+						select {
+						case <-quit:
+							return
+						default:
+							cs.Trailer()
+						}
+					}
+				}()
+			}
+			var fin error
+			done := within(bound, func() {
+				cs.SendMsg(&hx.Msg{Count: 1})
+				cs.CloseSend()
+				for {
+					if fin = cs.RecvMsg(&hx.Msg{}); fin != nil {
+						break
+					}
+				}
+				fin2 := cs.RecvMsg(&hx.Msg{})
+				_ = fin2
+			})
+			close(quit)
+			cancel()
+			runtime.KeepAlive(cs)
+			if !done || fin != io.EOF {
+				okAll, failedAt = false, rd
+			}
+		}
+		stop()
+		probe("http_trailer_polled_concurrently", okAll, map[string]interface{}{"transport": "httpgrpc", "scenario": "four goroutines call Trailer() in a loop while the call sends, closes and receives to the end; 40 calls", "all_completed_in_2s_each": okAll, "first_round_that_did_not": failedAt},
+			"a call did not complete while other goroutines were asking for its trailers")
+	}
 	// (c2a) CloseSend from a second client goroutine lands while a SendMsg is cloning its message (a cloner
 	// that takes its time): whichever order they take effect in, nothing panics and both return
 	{
